@@ -72,6 +72,8 @@ def o_async(prog, lines):
             lf = leaf_of(op)
             if lf and lf[0] == "fjoin":
                 given_up.add(lf[1])
+            if op[0] == "fpoll" and len(op) > 1:
+                given_up.add(op[1])                 # a `Ready` poll consumes (drops) the handle
             if op[0] == "fspawn" and len(op) > 1:
                 spawned_as_future.add(op[1])
 
@@ -119,6 +121,11 @@ def o_async(prog, lines):
                 if op[1] not in ended and op[1] not in dropped:
                     bad.append((f"fis_finished {op[1]} returned true before body {op[1]} ended", "C17:finished-flag"))
             lf = leaf_of(op)
+            if op[0] == "fpoll" or (op[0] == "block_on" and "fpoll" in op):
+                if res.startswith("ready:"):
+                    lf, res = ("fjoin", op[op.index("fpoll") + 1]), res[6:]
+                else:
+                    lf = None
             if lf and lf[0] == "fjoin" and res in ("ok", "cancelled"):
                 b = lf[1]
                 join_results.setdefault(b, []).append(res)
